@@ -22,6 +22,17 @@ impl Scenario {
     }
 }
 
+/// In the in-process build no system call separates one library operation from the next, so
+/// the harness offers the scheduler a choice (a yield: default = let the others go first, one
+/// deviation = carry on) where the OS build gets its points from the system calls themselves.
+pub fn inproc_point() {
+    if cfg!(feature = "inproc") {
+        unsafe {
+            libc::sched_yield();
+        }
+    }
+}
+
 pub fn sched_cfg() -> Cfg {
     Cfg { sched: true, fake_sndbuf: Some(4608), ..Default::default() }
 }
